@@ -31,7 +31,7 @@ TIMEOUT = {"quick": 900, "thorough": 3400}
 
 
 def gen_cases(tier: str, seed: int) -> list[dict[str, Any]]:
-    n = 48 if tier == "quick" else 1500
+    n = 48 if tier == "quick" else 10000
     return [dict(seed=seed, idx=i) for i in range(n)]
 
 
